@@ -4,12 +4,12 @@
    and Message::encode(f8String&) in coq/Codec (every write into a stack buffer is checked against
    the buffer's capacity, real_caps = the capacities of the pinned source).
 
-   State of the code (/repo 094581d): extract_element (d48d8ce) and extract_element_fixed_width
+   State of the code (/repo 1965750): extract_element (d48d8ce) and extract_element_fixed_width
    (ce1e2cc) are bounded, decode_group leaves its loop on an empty element (a0d41df), fast_atoi
-   honours '-' and does not shift (a8219b1), calc_chksum loads with memcpy (9d9ce26), the date/time
+   honours '-' (a8219b1) and accumulates in the unsigned type (1965750), calc_chksum loads with memcpy (9d9ce26), the date/time
    parsers do not shift and clamp the month (da4ab8c).  Decoding is therefore proved safe for ALL
    byte strings.  NOT repaired and stated as refutations / partial theorems: output[] of
-   encode(f8String&) (F07), the missing range test of fast_atoi<int>, the 64-bit tick product of the
+   encode(f8String&) (F07) and the 64-bit tick product of the
    date/time constructors.  The pre-repair definitions (suffix _orig) carry the witnesses of the repaired
    defects. *)
 From Coq Require Import NArith ZArith List Bool String.
@@ -112,20 +112,33 @@ Theorem c03_encode_overflow_refuted :
 Proof. exact c03_encode_overflow_refuted_lemma. Qed.
 Print Assumptions c03_encode_overflow_refuted.
 
-(* fast_atoi<int> since a8219b1: an optional '-' followed by at most 9 digits never triggers UB ... *)
-Theorem c03_fast_atoi_safe_partial : forall s, small_int_text s = true -> atoi_ub s = false.
-Proof. exact c03_fast_atoi_safe_partial_lemma. Qed.
-Print Assumptions c03_fast_atoi_safe_partial.
+(* fast_atoi<int> (F09), repaired by 1965750 (accumulation in the unsigned type): no text triggers
+   UB any more (atoi_ub is the model's UB flag for the routine: unsigned arithmetic has none) ... *)
+Theorem c03_fast_atoi_safe : forall s, atoi_ub s = false.
+Proof. exact c03_fast_atoi_safe_lemma. Qed.
+Print Assumptions c03_fast_atoi_safe.
 
-(* ... the edges of the int range parse without UB, one step beyond them is signed overflow (there
-   is still no range test), non-digits are accepted ("1e3" = 633). *)
-Theorem c03_fast_atoi_ub_refuted :
-  atoi_ub (bytes_of_string "2147483647"%string) = false /\ atoi_ub (bytes_of_string "-2147483648"%string) = false /\
-  atoi_ub (bytes_of_string "2147483648"%string) = true /\ atoi_ub (bytes_of_string "-2147483649"%string) = true /\
-  atoi_ub (bytes_of_string "99999999999"%string) = true /\ atoi_ub (bytes_of_string "1e3"%string) = false /\
-  atoi_val (bytes_of_string "-5"%string) = (-5)%Z /\ atoi_val (bytes_of_string "1e3"%string) = 633%Z.
-Proof. exact c03_atoi_ub_lemma. Qed.
-Print Assumptions c03_fast_atoi_ub_refuted.
+(* ... and the repair changes no result: wherever the previous int accumulation was defined, the
+   wrapped unsigned accumulation (Codec.Bytes.fast_atoi_i32) returns the same value. *)
+Theorem c03_fast_atoi_agrees_with_orig : forall s, atoi_ub_orig s = false -> atoi_val s = atoi_val_orig s.
+Proof. exact c03_fast_atoi_agree_lemma. Qed.
+Print Assumptions c03_fast_atoi_agrees_with_orig.
+
+(* The previous routine (a8219b1): an optional '-' and at most 9 digits never overflowed ... *)
+Theorem c03_fast_atoi_orig_safe_partial : forall s, small_int_text s = true -> atoi_ub_orig s = false.
+Proof. exact c03_fast_atoi_orig_safe_partial_lemma. Qed.
+Print Assumptions c03_fast_atoi_orig_safe_partial.
+
+(* ... the edges of the int range parsed without UB, one step beyond them was signed overflow; the
+   repaired routine wraps there ("2147483648" = -2147483648) and still accepts non-digits ("1e3" = 633). *)
+Theorem c03_fast_atoi_ub_orig_refuted :
+  atoi_ub_orig (bytes_of_string "2147483647"%string) = false /\ atoi_ub_orig (bytes_of_string "-2147483648"%string) = false /\
+  atoi_ub_orig (bytes_of_string "2147483648"%string) = true /\ atoi_ub_orig (bytes_of_string "-2147483649"%string) = true /\
+  atoi_ub_orig (bytes_of_string "99999999999"%string) = true /\ atoi_ub_orig (bytes_of_string "1e3"%string) = false /\
+  atoi_val (bytes_of_string "-5"%string) = (-5)%Z /\ atoi_val (bytes_of_string "1e3"%string) = 633%Z /\
+  atoi_val (bytes_of_string "2147483648"%string) = (-2147483648)%Z /\ atoi_val (bytes_of_string "99999999999"%string) = 1215752191%Z.
+Proof. exact c03_atoi_ub_orig_lemma. Qed.
+Print Assumptions c03_fast_atoi_ub_orig_refuted.
 
 (* The date/time field constructors (field.hpp), repaired by da4ab8c: a month outside 01..13
    indexed mon_days out of bounds and a char below '0' led to a shift of a negative value
